@@ -10,7 +10,7 @@ fn main() {
             rx_noise: true,
             only: &["two-parties", "lifecycle-order", "store-over-live-state", "txrx-panic", "app-panic"],
         },
-        150,
+        300,
         4000,
     );
 }
